@@ -95,12 +95,12 @@ def handle (op : String) (j : Json) : Option Json :=
         ("adm", ofList ofDecision (admissible pl info r))]).toArray)
     | _, _, _ => some badInput
   else if op == "c10.group" then
-    match getInt? j "threshold", (getList? j "groups").bind (·.mapM fun g => (asArr? g).bind (·.mapM alnRead?)) with
-    | some th, some groups =>
-      some (Json.arr (groups.map fun g => match groupRead th g with
+    match getInt? j "threshold", getBool? j "repaired", (getList? j "groups").bind (·.mapM fun g => (asArr? g).bind (·.mapM alnRead?)) with
+    | some th, some rep, some groups =>
+      some (Json.arr (groups.map fun g => match groupRead rep th g with
         | none => Json.null
         | some (st, vs) => Json.arr #[ofInt st, ofList ofRV vs]).toArray)
-    | _, _ => some badInput
+    | _, _, _ => some badInput
   else if op == "c10.chrom" then
     match getNat? j "ploidy", getInt? j "cutoff", getBool? j "ignoreLinked", getBool? j "tagSupp",
       (getList? j "samples").bind (·.mapM sample?), (getList? j "alns").bind (·.mapM alnView?) with
